@@ -20,3 +20,5 @@ open GlueVerif.C13
 #print axioms remove_undo_reorders
 #print axioms add_present_undo_removes
 #print axioms remove_absent_undo_appends
+#print axioms ideal_zipper_refinement
+#print axioms ideal_vs_impl
